@@ -143,6 +143,43 @@ type Decoder struct {
 	// Observation counters: entries evicted, references to dynamic entries
 	// (whole field or name), size updates processed, entries inserted.
 	Evicted, DynRefs, Updates, Inserted int
+	// IntHook, if set, is called for every integer (RFC 7541 5.1) that was
+	// parsed completely: site names which integer of which representation it
+	// is (Site* constants), prefix is its N, v the value. Observation only.
+	IntHook func(site string, prefix uint8, v uint64)
+}
+
+// Sites reported to Decoder.IntHook.
+const (
+	SiteIndexed         = "indexed"
+	SiteSizeUpdate      = "size-update"
+	SiteNameIdxIncr     = "name-index:incremental"
+	SiteNameIdxWithout  = "name-index:without-indexing"
+	SiteNameIdxNever    = "name-index:never-indexed"
+	SiteNameLenRaw      = "name-length:raw"
+	SiteNameLenHuffman  = "name-length:huffman"
+	SiteValueLenRaw     = "value-length:raw"
+	SiteValueLenHuffman = "value-length:huffman"
+)
+
+func (d *Decoder) hookInt(site string, prefix uint8, v uint64) {
+	if d.IntHook != nil {
+		d.IntHook(site, prefix, v)
+	}
+}
+
+// readStr is readString plus the IntHook report of the length integer.
+func (d *Decoder) readStr(p []byte, rawSite, huffSite string) (s string, rest []byte, cls string) {
+	s, rest, cls = readString(p)
+	if cls == "" && d.IntHook != nil {
+		n, _, _ := readInt(p, 7)
+		if p[0]&0x80 != 0 {
+			d.IntHook(huffSite, 7, n)
+		} else {
+			d.IntHook(rawSite, 7, n)
+		}
+	}
+	return
 }
 
 func NewDecoder(max uint32) *Decoder {
@@ -282,6 +319,7 @@ func (d *Decoder) DecodeBlock(p []byte) (fields []Field, cls string) {
 				return fields, c
 			}
 			p = rest
+			d.hookInt(SiteIndexed, 7, idx)
 			fields = append(fields, Field{Name: f.Name, Value: f.Value})
 			sawField = true
 		case b&0xe0 == 0x20: // 6.3 dynamic table size update
@@ -301,6 +339,7 @@ func (d *Decoder) DecodeBlock(p []byte) (fields []Field, cls string) {
 			d.Max = v
 			d.evict()
 			d.Updates++
+			d.hookInt(SiteSizeUpdate, 5, v)
 			p = rest
 		default: // literals: 6.2.1 (01), 6.2.2 (0000), 6.2.3 (0001)
 			var n uint8 = 4
@@ -321,12 +360,20 @@ func (d *Decoder) DecodeBlock(p []byte) (fields []Field, cls string) {
 				}
 				f.Name = e.Name
 			} else {
-				f.Name, rest, c = readString(rest)
+				f.Name, rest, c = d.readStr(rest, SiteNameLenRaw, SiteNameLenHuffman)
 				if c != "" {
 					return fields, c
 				}
 			}
-			f.Value, rest, c = readString(rest)
+			switch {
+			case incremental:
+				d.hookInt(SiteNameIdxIncr, n, idx)
+			case never:
+				d.hookInt(SiteNameIdxNever, n, idx)
+			default:
+				d.hookInt(SiteNameIdxWithout, n, idx)
+			}
+			f.Value, rest, c = d.readStr(rest, SiteValueLenRaw, SiteValueLenHuffman)
 			if c != "" {
 				return fields, c
 			}
